@@ -110,11 +110,11 @@ public:
                 regs.ipv = 1;
             }
 
-            u16 opcode = mem.ProgramRead((regs.pc++) | (regs.prpage << 18));
+            u16 opcode = mem.ProgramRead((regs.pc++) | ((u32)regs.prpage << 18));
             auto& decoder = decoders[opcode];
             u16 expand_value = 0;
             if (decoder.NeedExpansion()) {
-                expand_value = mem.ProgramRead((regs.pc++) | (regs.prpage << 18));
+                expand_value = mem.ProgramRead((regs.pc++) | ((u32)regs.prpage << 18));
             }
 
             if (regs.rep) {
@@ -1451,7 +1451,8 @@ public:
     }
     void tstb(SttMod a, Imm16 b) {
         u16 value = RegToBus16(a.GetName());
-        regs.fz = (value >> b.Unsigned16()) & 1;
+        // only the low 4 bits of the second word select the bit (the upper 12 are unused)
+        regs.fz = (value >> (b.Unsigned16() & 0xF)) & 1;
     }
 
     void and_(Ab a, Ab b, Ax c) {
